@@ -359,4 +359,100 @@ example :
     = [.delivered 0x1101 7, .rejected .seqTooLow, .rejected .mac, .rejected .unknownSender,
        .rejected .inner, .rejected .seqTooLow, .sent 100] := by decide
 
+/-! ### Round 2: through `CEMIHandler.send_telegram`, with the interface's verdict
+
+Histories of `TEv`: received frames, direct `outgoing_cemi` calls and
+`send_telegram` calls whose hand-over to `knxip_interface.send_cemi` ends in
+success, `CommunicationError`, `ConversionError` or a missing confirmation. -/
+
+abbrev ttrace (s : St) (evs : List TEv) : List TObs := (run tstep s evs).2
+abbrev tfinal (s : St) (evs : List TEv) : St := (run tstep s evs).1
+
+theorem erase_append (a b : List TObs) : TObs.erase (a ++ b) = TObs.erase a ++ TObs.erase b := by
+  induction a with
+  | nil => rfl
+  | cons x t ih => cases x <;> simp [TObs.erase, ih]
+
+theorem erase_map_base (l : List Obs) : TObs.erase (l.map .base) = l := by
+  induction l with
+  | nil => rfl
+  | cons x t ih => simp [TObs.erase, ih]
+
+/-- One `send_telegram` layer step is the `DataSecure` step of its projection; the verdict
+adds an observation and nothing else. -/
+theorem tstep_proj (s : St) (e : TEv) :
+    (tstep s e).1 = (step s e.proj).1 ∧ TObs.erase (tstep s e).2 = (step s e.proj).2 := by
+  cases e with
+  | base e => exact ⟨rfl, erase_map_base _⟩
+  | transmit g k res =>
+    refine ⟨rfl, ?_⟩
+    simp only [tstep, TEv.proj, erase_append, erase_map_base]
+    split <;> simp [TObs.erase]
+
+/-- **Simulation.** Every history through `send_telegram` is, for the Data Secure state
+and for everything handed over / delivered, the history of its projection. -/
+theorem trun_proj (evs : List TEv) (s : St) :
+    tfinal s evs = final s (evs.map TEv.proj) ∧ TObs.erase (ttrace s evs) = trace s (evs.map TEv.proj) := by
+  induction evs generalizing s with
+  | nil => exact ⟨rfl, rfl⟩
+  | cons e es ih =>
+    obtain ⟨h1, h2⟩ := tstep_proj s e
+    obtain ⟨i1, i2⟩ := ih (step s e.proj).1
+    simp only [tfinal, ttrace, final, trace, List.map_cons, run_cons, erase_append] at i1 i2 ⊢
+    rw [h1, h2]
+    exact ⟨i1, by rw [i2]⟩
+
+/-- **The interface's verdict never touches the counter**: whatever `send_cemi` did with the
+frame, the state after `send_telegram` is the state after `outgoing_cemi`. -/
+theorem verdict_irrelevant (s : St) (g k : Bool) (res res' : IfRes) :
+    (tstep s (.transmit g k res)).1 = (tstep s (.transmit g k res')).1
+      ∧ (tstep s (.transmit g k res)).1 = (step s (.send g k)).1 := ⟨rfl, rfl⟩
+
+/-- A secured frame handed to the interface uses its number up, also when the hand-over fails. -/
+theorem failed_send_burns_number (s : St) (res : IfRes) (h : s.sendSeq ≤ sequenceNumberMax) :
+    (tstep s (.transmit true true res)).1.sendSeq = s.sendSeq + 1
+      ∧ TObs.erase (tstep s (.transmit true true res)).2 = [.sent s.sendSeq] := by
+  obtain ⟨h1, h2⟩ := tstep_proj s (.transmit true true res)
+  rw [h1, h2]
+  have hgt : ¬ s.sendSeq > sequenceNumberMax := by omega
+  simp [TEv.proj, step, getSeq, hgt]
+
+/-- **Handed-over sequence numbers are strictly increasing over every history**, including
+failed sends, interleaved receptions and direct `outgoing_cemi` calls. -/
+theorem handed_strictly_increasing (s : St) (evs : List TEv) :
+    (TObs.erase (ttrace s evs)).Pairwise fun x y => ∀ a b, x = Obs.sent a → y = Obs.sent b → a < b := by
+  rw [(trun_proj evs s).2]
+  exact sent_strictly_increasing s _
+
+theorem handed_within_48_bit (s : St) (evs : List TEv) (q : Nat)
+    (h : Obs.sent q ∈ TObs.erase (ttrace s evs)) : q < 2 ^ 48 ∧ s.sendSeq ≤ q := by
+  rw [(trun_proj evs s).2] at h
+  exact sent_within_48_bit s _ q h
+
+/-- **The sending counter never decreases over any history, failed sends included.** -/
+theorem counter_never_decreases (s : St) (evs : List TEv) : s.sendSeq ≤ (tfinal s evs).sendSeq := by
+  rw [(trun_proj evs s).1]
+  exact sendSeq_monotone s _
+
+/-- … in particular not between any two points of a history. -/
+theorem counter_monotone_along (s : St) (evs evs' : List TEv) :
+    (tfinal s evs).sendSeq ≤ (tfinal s (evs ++ evs')).sendSeq := by
+  simp only [tfinal, run_append]
+  exact counter_never_decreases _ evs'
+
+/-- Receiving side unchanged by the layer: deliveries per sender stay strictly increasing. -/
+theorem delivered_strictly_increasing_t (s : St) (evs : List TEv) :
+    (TObs.erase (ttrace s evs)).Pairwise
+      fun x y => ∀ src a b, x = Obs.delivered src a → y = Obs.delivered src b → a < b := by
+  rw [(trun_proj evs s).2]
+  exact delivered_strictly_increasing s _
+
+/-- Non-vacuity: a CommunicationError, a ConversionError and a missing confirmation in a row,
+then a success – four different numbers; a plain destination in between draws none. -/
+example :
+    ttrace ⟨[], 1000⟩ [.transmit true true .comm, .transmit true true .conv, .transmit true false .comm,
+                        .transmit true true .noconf, .transmit true true .ok]
+    = [.base (.sent 1000), .outcome .comm, .base (.sent 1001), .outcome .conv, .base .sentPlain, .outcome .comm,
+       .base (.sent 1002), .outcome .noconf, .base (.sent 1003), .outcome .ok] := by decide
+
 end XknxVerif.Props.C17
